@@ -221,7 +221,7 @@ def run(ctx):
     common.quiet_logging()
     rng = ctx.rng
     advs = (None, None, "zero-first", "zero-last", "zero-max", "unknown-run", "filler-run")
-    for i in range(ctx.n(24000, 500000)):
+    for i in range(ctx.n(24000, 300000)):
         items = make_items(rng, adversarial=advs[i % len(advs)])
         backend = ("file", "buffered", "socket", "file", "buffered", "socket", "pipe", "makefile")[i % 8]
         mode = rng.choice((0, 1, 2))
